@@ -840,6 +840,22 @@ impl LinkRelay<OutputHandle> {
         }
     }
 
+    /// Hands over a detach that arrived before the link was registered with the session (the
+    /// remote wrote attach and detach without waiting for the answer). Called right after the
+    /// registration, when nothing has been sent to the new link endpoint yet.
+    pub(crate) fn try_on_incoming_detach(
+        &mut self,
+        detach: Detach,
+    ) -> Result<(), mpsc::error::TrySendError<LinkFrame>> {
+        if detach.closed {
+            self.fail_pending_settlements();
+        }
+        match self {
+            LinkRelay::Sender { tx, .. } => tx.try_send(LinkFrame::Detach(detach)),
+            LinkRelay::Receiver { tx, .. } => tx.try_send(LinkFrame::Detach(detach)),
+        }
+    }
+
     /// This is cancel safe because it only .await on sending over `tokio::mpsc::Sender`
     pub async fn on_incoming_detach(
         &mut self,
